@@ -399,7 +399,11 @@ example : OnlyOnObjects modelName (Strip.stripDirective nitroName sampleChecked)
 /-
 CONTINUED in `Props/C16Text.lean`: the character-level lexer (`lexW` here takes names, numbers and punctuators as the
 printer tokens they are; there the written TEXT is lexed by the lexical grammar of the specification, and the printer
-is shown to separate its tokens), and the composition with the template layer.
+is shown to separate its tokens), and the composition with the template layer; and in `Props/C16Own.lean`: the model of
+nitrogql's OWN parser as the reader. The parser of this file is the SPECIFICATION's (`Spec/GqlDocTokens.lean`), not nitrogql's.
+
+OPEN — carried by K/O only: everything outside the hypotheses of the theorems above (`wf…`, `unionOK` / `itemUnionOK`,
+`strExact` / `strsOK`, `noImports`, `OnlyOnScalars` / `OnlyOnObjects`, `nameOK`); see the OPEN block of `Props/C16.lean`.
 -/
 
 end NitroVerif.C16
